@@ -581,6 +581,19 @@ def r3(ctx: Ctx, rep: Report):
                       "failure path increments %s exactly once and passes it to RequestFailedException" % counter,
                       bad="_read_from_socket raises RequestFailedException after changing %s by %r and passing %s as the count [path %s]" % (
                           counter, delta, norm(arg) if arg is not None else "<missing>", p.describe(6)))
+    # any other way out (a refusal by the inverter, an internal error) is neither a success nor a counted failure: the
+    # streak of consecutive failures is left as it was
+    other_bad = None
+    for p in paths:
+        if p.end == "raise" and p.end_data is not rfe:
+            rp = Replay(prog, rfs, p)
+            delta = rp.sym.lin(cexpr) - rp.sym_at(0).lin(cexpr)
+            if not (delta.is_const() and delta.const == 0) and other_bad is None:
+                other_bad = (p, rp.sym.lin(cexpr))
+    rep.check(other_bad is None, "C09.R3", "other-exits-keep-count", rfs.loc(other_bad[0].end_node) if other_bad else rfs.loc(),
+              "an exception that passes through _read_from_socket (RequestRejectedException ...) leaves %s untouched" % counter,
+              bad="_read_from_socket lets %s pass with %s = %r instead of its value before the request: a refused request ends (or extends) the streak of consecutive failures, the next RequestFailedException reports a wrong count [path %s]" % (
+                  prog.exc_name(other_bad[0].end_data) if other_bad else "", counter, other_bad[1] if other_bad else "", other_bad[0].describe(6) if other_bad else ""))
     if not paths:
         raise AnalysisError("_read_from_socket: no path could be followed")
     rep.check(nret > 0 and nraise >= 2, "C09.R3", "outcomes", rfs.loc(), "_read_from_socket has a success path and counts both kinds of failure (retries exhausted, request failed)",
